@@ -9,7 +9,7 @@ struct BbHarness : Harness {
     std::vector<std::string> props() const override { return {"C18"}; }
     std::vector<std::string> probes(const std::string &) const override {
         return {"rewind_partial", "rewind_fully_consumed", "add_exactly_fills", "add_refused", "consume_refused", "consume_at_most_clipped",
-                "invalid_setup_null_memory", "invalid_setup_zero_size", "invalid_setup_used_gt_size", "invalid_setup_offset_gt_used", "count_beyond_any_block", "buffer_of_64k_octets_or_more", "buffer_from_static_initialiser", "invalid_setup_names_other_memory", "added_octets_alias_the_buffer_object", "object_nulled"};
+                "invalid_setup_null_memory", "invalid_setup_zero_size", "invalid_setup_used_gt_size", "invalid_setup_offset_gt_used", "count_beyond_any_block", "buffer_of_64k_octets_or_more", "buffer_from_static_initialiser", "invalid_setup_names_other_memory", "added_octets_alias_the_buffer_object", "object_nulled", "invalid_setup_through_use_or_space"};
     }
     uint64_t runs(const std::string &, const Tier &t) const override { return t.thorough() ? 6000000 : 1500000; }
 
@@ -62,7 +62,7 @@ struct BbHarness : Harness {
                 o["op"] = k;
                 if (k == "set") { int64_t s = r.range(1, size), u = r.range(0, s), f = r.range(0, u); o["s"] = (long long)s; o["u"] = (long long)u; o["f"] = (long long)f; }
                 else if (k == "use" || k == "space") o["s"] = (long long)r.range(1, size);
-                else if (k == "badset") { o["kind"] = (long long)r.below(8); o["n"] = (long long)r.below(3); }
+                else if (k == "badset") { o["kind"] = (long long)r.below(8); o["n"] = (long long)r.below(3); o["via"] = (long long)r.below(3); }
             }
             ops.push(o);
         }
@@ -238,6 +238,8 @@ struct BbHarness : Harness {
                 check("nullbuf", true, before, bs, bu, bo);
             } else if (op == "badset") {
                 int kind = (int)(o.geti("kind") & 7);
+                const int via = (int)(((o.geti("via") % 3) + 3) % 3);
+                if (via && (kind == 0 || kind == 1 || kind == 7)) COUNT("probe.invalid_setup_through_use_or_space");
                 int rc;
                 // kinds 4..7: the refused call names other memory and another (smaller) size than the buffer has - nothing of it may stick
                 GuardedBlock other(3); const size_t osz = 1 + (size_t)(o.geti("n") % 3 + 3) % 3;
@@ -245,9 +247,10 @@ struct BbHarness : Harness {
                 case 4: rc = byte_buffer_set(&b, other.p, osz, osz + 1, 0); COUNT("probe.invalid_setup_names_other_memory"); break;
                 case 5: rc = byte_buffer_set(&b, other.p, osz, osz, osz + 1); COUNT("probe.invalid_setup_names_other_memory"); break;
                 case 6: rc = byte_buffer_set(&b, other.p, osz, SIZE_MAX, 0); COUNT("probe.invalid_setup_names_other_memory"); break;
-                case 7: rc = byte_buffer_set(&b, nullptr, osz, 0, 0); COUNT("probe.invalid_setup_null_memory"); break;
-                case 0: rc = byte_buffer_set(&b, nullptr, (size_t)bsize, 0, 0); COUNT("probe.invalid_setup_null_memory"); break;
-                case 1: rc = byte_buffer_set(&b, blk.p, 0, 0, 0); COUNT("probe.invalid_setup_zero_size"); break;
+                // null memory and zero size can also be asked for through the two convenience set-ups (via 1: use, via 2: space)
+                case 7: rc = via == 1 ? byte_buffer_use(&b, nullptr, osz) : via == 2 ? byte_buffer_space(&b, nullptr, osz) : byte_buffer_set(&b, nullptr, osz, 0, 0); COUNT("probe.invalid_setup_null_memory"); break;
+                case 0: rc = via == 1 ? byte_buffer_use(&b, nullptr, (size_t)bsize) : via == 2 ? byte_buffer_space(&b, nullptr, (size_t)bsize) : byte_buffer_set(&b, nullptr, (size_t)bsize, 0, 0); COUNT("probe.invalid_setup_null_memory"); break;
+                case 1: rc = via == 1 ? byte_buffer_use(&b, blk.p, 0) : via == 2 ? byte_buffer_space(&b, blk.p, 0) : byte_buffer_set(&b, blk.p, 0, 0, 0); COUNT("probe.invalid_setup_zero_size"); break;
                 case 2: rc = byte_buffer_set(&b, blk.p, (size_t)bsize, (size_t)bsize + 1, 0); COUNT("probe.invalid_setup_used_gt_size"); break;
                 default: rc = byte_buffer_set(&b, blk.p, (size_t)bsize, (size_t)bsize - 1, (size_t)bsize); COUNT("probe.invalid_setup_offset_gt_used"); break;
                 }
